@@ -232,6 +232,102 @@ def held_rekey(role, api, inflight):
         pair.close()
 
 
+def gated_send(role):
+    """The user thread is stopped right after `clear_to_send.wait()` returned (event still set); the subject starts a
+    re-exchange and its KEXINIT goes out; then the user thread goes on.  Nothing of the peer is in flight."""
+    from tests._loop import LoopSocket
+
+    a, b = LoopSocket(), LoopSocket()
+    a.link(b)
+    pair = L.Pair(role, "Transport", True, socks=(a, b))
+    sub, peer = pair.subject, pair.peer
+    out = {"role": role}
+    try:
+        ch = pair.tc.open_session(timeout=30)
+        sch = pair.ts.accept(30)
+        if sch is None:
+            raise InfraError("accept timed out")
+        sub_ch, peer_ch = (sch, ch) if role == "server" else (ch, sch)
+        tap = L.Tap(sub)
+        sub.clear_to_send_timeout = 5.0
+        if not pair.barrier():
+            raise InfraError("session not usable before the re-exchange")
+
+        class GateEvent(threading.Event):
+            """clear_to_send, observed from outside: the designated thread is held once, after wait() returned"""
+            target = None
+            at_gate = threading.Event()
+            go = threading.Event()
+            passed = False
+
+            def wait(self, timeout=None):
+                r = super().wait(timeout)
+                if threading.current_thread() is GateEvent.target and not GateEvent.passed:
+                    GateEvent.passed = True
+                    GateEvent.result = r
+                    GateEvent.at_gate.set()
+                    GateEvent.go.wait(30)
+                return r
+
+        ev = GateEvent()
+        ev.set()
+        sub.clear_to_send = ev
+        user_exc = []
+
+        def user():
+            try:
+                sub_ch.sendall(b"gated-user-data")
+            except Exception as e:
+                user_exc.append(e)
+
+        th = threading.Thread(target=user, daemon=True)
+        GateEvent.target = th
+        th.start()
+        if not GateEvent.at_gate.wait(20):
+            raise InfraError("the user thread never reached clear_to_send.wait()")
+        out["wait_returned"] = bool(GateEvent.result)
+        mark = len(tap.tx)
+        sub._send_kex_init()                         # event cleared under the lock, KEXINIT written
+        GateEvent.go.set()
+
+        def settled():
+            return (not sub.is_alive() or not peer.is_alive()) or (
+                not sub.in_kex and not peer.in_kex and sub.clear_to_send.is_set() and peer.clear_to_send.is_set()
+                and any(r[0] == 21 for r in tap.tx[mark:]))
+
+        t0 = time.time()
+        while not (settled() and not th.is_alive()) and time.time() - t0 < 30:
+            time.sleep(0.01)
+        types = [r[0] for r in tap.tx[mark:]]
+        window = []
+        for t in types[1:] if types and types[0] == 20 else types:
+            if t == 21:
+                break
+            window.append(t)
+        out["window"] = window
+        out["after_newkeys"] = types[types.index(21) + 1:] if 21 in types else []
+        out["completed"] = bool(21 in types and sub.is_active() and peer.is_active() and settled())
+        out["user_returned"] = not th.is_alive()
+        out["user_exc"] = repr(user_exc[0]) if user_exc else "-"
+        out["sub_exc"] = repr(sub.saved_exception)
+        out["peer_exc"] = repr(peer.saved_exception)
+        got = b""
+        if out["completed"] and out["user_returned"] and not user_exc:
+            peer_ch.settimeout(20)
+            try:
+                while len(got) < 15:
+                    x = peer_ch.recv(64)
+                    if not x:
+                        break
+                    got += x
+            except Exception:
+                pass
+        out["delivered"] = got == b"gated-user-data"
+        return out
+    finally:
+        pair.close()
+
+
 def run(ctx):
     L.quiet_logging()
     L.stub_gss()
@@ -320,6 +416,30 @@ def run(ctx):
             if model["finished"] and API_TYPE[api] not in o["after_newkeys"]:
                 ctx.disagree("channel-lock model: wire after NEWKEYS", o, f[2], o["after_newkeys"])
 
+    # ---------------- the send gate: user thread held between wait() and the lock while the exchange starts
+    gate_facts = ctx.extra.get("send_gate_facts", {})
+    greq = ["gate %d 1 u k k k k u u u k k k k k u u u u u" % (1 if gate_facts.get("rechecks_under_lock") else 0)]
+    grep_ = ctx.driver("C11", greq)
+    for role in ("server", "client"):
+        o = gated_send(role)
+        ctx.case(("gate", role), True)
+        ctx.dist("send-gate:" + role)
+        ctx.sample(o, limit=12)
+        offending = [t for t in o["window"] if t >= 50]
+        if offending:
+            ctx.fail("user-message-inside-kex-window:send-gate", o,
+                     "types %r written between KEXINIT and NEWKEYS by a user thread that had passed wait()" % offending)
+        elif not o["completed"] or not o["user_returned"] or o["user_exc"] != "-":
+            ctx.fail("re-exchange-fails:send-gate", o, "subject %s peer %s user %s" % (o["sub_exc"], o["peer_exc"], o["user_exc"]))
+        elif not o["delivered"]:
+            ctx.fail("queued-user-message-lost:send-gate", o, "user data not delivered after the exchange")
+        if grep_ is not None:
+            wire = [int(x) for x in grep_[0].split(",")] if grep_[0] != "-" else []
+            win = wire[wire.index(20) + 1: wire.index(21)] if 20 in wire and 21 in wire else []
+            model_in = any(t >= 50 for t in win)
+            if model_in != bool(offending):
+                ctx.disagree("send gate: user data inside the kex window", o, {"wire": wire}, {"window": o["window"]})
+
     reqs = []
     for (role, kind, park), o in zip(jobs, results):
         reqs.append("run start in:%s %spk kr pn" % (kind, "user:94 " if park else ""))
@@ -372,7 +492,12 @@ META = {
               "bound when the user call releases Channel.lock before _send_user_message, finished runs put the user "
               "message after NEWKEYS, deadlock witness for the lock-holding variant; the hypothesis is discharged "
               "for the tree under test from the AST of channel.py (no user-thread call site of _send_user_message "
-              "inside a Channel.lock region), and driven on the real code during a held re-exchange."),
+              "inside a Channel.lock region), and driven on the real code during a held re-exchange. The send gate at "
+              "step granularity (SendGate model: wait / acquire clear_to_send_lock / re-check is_set / send / release "
+              "against acquire / clear / release / KEXINIT … NEWKEYS / set): for every interleaving and any number of "
+              "user messages each one is written before our KEXINIT or after our NEWKEYS (send_gate_window_clean), "
+              "with a witness for the variant without the re-check; the step structure is read from the AST of "
+              "_send_user_message and _send_kex_init, and the critical interleaving is forced on the real code."),
     "note": ("Missing for a full claim: the defects themselves (repair = queue replies during the exchange, not a "
              "small patch); the model is a one-transport abstraction (message kinds × reply mechanism), tied by one "
              "crossing per kind and role — other crossing orders (message arriving after the peer's KEXINIT, "
